@@ -420,7 +420,11 @@ impl<TStdlib: Stdlib, TStdIn: Input, TStdOut: Printer, TLpt1: Printer>
             }
             Instruction::PopStack => {
                 self.context.pop();
-                self.stacktrace.remove(0);
+                // the stacktrace is drained when an error is raised inside a built-in;
+                // if that error was handled, execution continues with an empty stacktrace
+                if !self.stacktrace.is_empty() {
+                    self.stacktrace.remove(0);
+                }
             }
             Instruction::EnqueueToReturnStack(index) => {
                 subprogram::enqueue_to_return_stack(self, *index);
